@@ -30,3 +30,37 @@ PROPS["C16"] = {
          "params": {"quick": {"L": 6}, "thorough": {"L": 8}}},
     ],
 }
+
+PROPS["C11"] = {
+    "files": ["hrpc/c11_cells.go"],
+    "claim": "No byte string up to N bytes in the position of a cellblock, and no structurally valid Get/Mutate/Scan response whose "
+             "counts disagree with the data, makes the cell decoders panic, read beyond the received bytes or return a cell that is "
+             "not fully inside the buffer.",
+    "outside": "buffers longer than N; allocation size from a huge declared count (bounded by MAXCELLS); protobuf-go's own decoder",
+    "assumptions": ["declared cell counts <= MAXCELLS (allocation size is environment dependent and outside the claim)"],
+    "jobs": [
+        {"name": "cell_parser", "pkg": "hrpc", "entry": "VerifCellParser", "reach": ["decoded"],
+         "params": {"quick": {"N": 28}, "thorough": {"N": 40}}},
+        {"name": "cell_parser_slack", "pkg": "hrpc", "entry": "VerifCellParserSlack", "reach": ["decoded"],
+         "params": {"quick": {"N": 26, "X": 8}, "thorough": {"N": 32, "X": 16}}},
+        {"name": "deserialize_blocks", "pkg": "hrpc", "entry": "VerifDeserializeBlocks", "reach": ["decoded"],
+         "params": {"quick": {"N": 44, "MAXCELLS": 2}, "thorough": {"N": 66, "MAXCELLS": 3}}},
+        {"name": "get_mutate_deserialize", "pkg": "hrpc", "entry": "VerifGetMutateDeserialize", "reach": ["decoded"],
+         "params": {"quick": {"N": 24, "MAXCELLS": 2}, "thorough": {"N": 44, "MAXCELLS": 2}}},
+        {"name": "scan_deserialize", "pkg": "hrpc", "entry": "VerifScanDeserialize", "reach": ["decoded"],
+         "params": {"quick": {"N": 24, "R": 2, "MAXCELLS": 1}, "thorough": {"N": 44, "R": 3, "MAXCELLS": 2}}},
+    ],
+}
+
+PROPS["C10"] = {
+    "files": ["hrpc/c10_roundtrip.go"],
+    "claim": "Every cell with row/family/qualifier/value up to F bytes each (all byte values, all lengths incl. empty), any 64-bit "
+             "timestamp and any type byte, appended to a buffer with arbitrary prior content, decodes by the client's decoder and by "
+             "an independent KeyValue decoder to the identical fields, consuming exactly cellblockLen bytes; prior content untouched.",
+    "outside": "fields longer than F bytes (in particular the 16-bit row-length and 8-bit family-length boundaries)",
+    "assumptions": [],
+    "jobs": [
+        {"name": "cell_roundtrip", "pkg": "hrpc", "entry": "VerifCellRoundTrip", "reach": ["roundtrip"],
+         "params": {"quick": {"F": 2, "P": 2, "PX": 2}, "thorough": {"F": 3, "P": 2, "PX": 40}}},
+    ],
+}
